@@ -30,16 +30,26 @@ Section Fresh.
   Variable H : N -> N -> N.
   Hypothesis ident_collision_free : forall a b, ident a = ident b -> a = b.
   Hypothesis H_collision_free : forall i1 s1 i2 s2, H i1 s1 = H i2 s2 -> i1 = i2 /\ s1 = s2.
+  (* the sources reserved for requests with a long detection *)
+  Variable resv : N -> Prop.
 
   Definition rcomps_ok (past : list revent) (c : list (rkey * rentry)) : Prop :=
     forall k e, elookup k c = Some e ->
       exists ev b, In ev past /\ v_sel ev = snd k /\ v_cur ev = Some (b, re_mtime e) /\ re_id e = ident b.
 
   Definition rresults_ok (r : list (N * N)) : Prop :=
-    forall key prod, rrlookup key r = Some prod -> exists s, key = H (ident prod) s.
+    forall key prod, rrlookup key r = Some prod ->
+      exists i s, key = H i s /\ (i = ident prod \/ resv s).
+
+  Definition rheld_ok (past : list revent) (h : option (N * N * N * N)) : Prop :=
+    match h with
+    | None => True
+    | Some (t, src, id0, m0) =>
+        resv src /\ exists ev b0, In ev past /\ v_sel ev = t /\ v_cur ev = Some (b0, m0) /\ id0 = ident b0
+    end.
 
   Definition RInv (past : list revent) (s : rstate) : Prop :=
-    rcomps_ok past (r_comps s) /\ rresults_ok (r_results s).
+    rcomps_ok past (r_comps s) /\ rresults_ok (r_results s) /\ rheld_ok past (r_held s).
 
   Lemma rcomps_more past ev c : rcomps_ok past c -> rcomps_ok (past ++ [ev]) c.
   Proof.
@@ -47,17 +57,24 @@ Section Fresh.
     split; [apply in_or_app; left; exact I | exact R].
   Qed.
 
-  (* a request resolved to the toolchain its path leads to *)
-  Lemma rserve_right past s memo' direct req sel src s' ev :
-    RInv past s ->
-    rserve ident H s memo' direct req sel sel src = (s', ev) ->
-    (forall a, In a past -> ragree a ev = true) ->
-    rright ident ev = true /\ RInv (past ++ [ev]) s'.
+  Lemma rheld_more past ev h : rheld_ok past h -> rheld_ok (past ++ [ev]) h.
   Proof.
-    intros [C R] E A. unfold rserve in E.
+    destruct h as [[[[t src] id0] m0]|]; simpl; [|auto].
+    intros [R [ev0 [b0 [I X]]]]. split; [exact R|]. exists ev0, b0.
+    split; [apply in_or_app; left; exact I | exact X].
+  Qed.
+
+  (* a request resolved to the toolchain its path leads to, with the server's own finding *)
+  Lemma rserve_right past s memo' direct req sel src held s' ev :
+    RInv past s ->
+    rserve ident H s memo' direct req sel sel src held None = (s', ev) ->
+    (forall a, In a past -> ragree a ev = true) ->
+    (~ resv src -> rright ident ev = true) /\ RInv (past ++ [ev]) s' /\ v_held ev = held.
+  Proof.
+    intros [C [R Hd]] E A. unfold rserve in E.
     destruct (tlookup sel (r_tcs s)) as [[b m]|] eqn:T.
-    2:{ inversion E; subst s' ev; clear E. split; [reflexivity|].
-        split; [apply rcomps_more; exact C | exact R]. }
+    2:{ inversion E; subst s' ev; clear E. split; [intros _; reflexivity|]. split; [|reflexivity].
+        split; [apply rcomps_more; exact C|]. split; [exact R | apply rheld_more; exact Hd]. }
     set (k := (req, sel)) in *.
     assert (Id : forall comps' id,
       (match elookup k (r_comps s) with
@@ -90,69 +107,148 @@ Section Fresh.
               end) as [comps' id] eqn:Eq.
     destruct (rrlookup (H id src) (r_results s)) as [prod|] eqn:L.
     - inversion E; subst s' ev; clear E.
-      match goal with |- rright _ ?e = true /\ _ => destruct (Id _ _ eq_refl e eq_refl eq_refl A) as [-> C'] end.
-      destruct (R _ _ L) as [s0 K0]. apply H_collision_free in K0 as [K0 _].
-      apply ident_collision_free in K0. subst prod.
-      split; [|split; [exact C' | exact R]].
+      match goal with |- (_ -> rright _ ?e = true) /\ _ => destruct (Id _ _ eq_refl e eq_refl eq_refl A) as [-> C'] end.
+      split; [|split; [split; [exact C' | split; [exact R | apply rheld_more; exact Hd]] | reflexivity]].
+      intros NR. destruct (R _ _ L) as [i0 [s0 [K0 Or]]]. apply H_collision_free in K0 as [K0 K1]. subst i0 s0.
+      destruct Or as [Or | Or]; [|contradiction].
+      apply ident_collision_free in Or. subst prod.
       unfold rright, rserved; simpl. rewrite !N.eqb_refl. reflexivity.
     - inversion E; subst s' ev; clear E.
-      match goal with |- rright _ ?e = true /\ _ => destruct (Id _ _ eq_refl e eq_refl eq_refl A) as [-> C'] end.
-      split; [|split; [exact C'|]].
-      + unfold rright, rserved; simpl. rewrite !N.eqb_refl. reflexivity.
+      match goal with |- (_ -> rright _ ?e = true) /\ _ => destruct (Id _ _ eq_refl e eq_refl eq_refl A) as [-> C'] end.
+      split; [|split; [split; [exact C' | split; [|apply rheld_more; exact Hd]] | reflexivity]].
+      + intros _. unfold rright, rserved; simpl. rewrite !N.eqb_refl. reflexivity.
       + simpl. intros key prod L1. simpl in L1. destruct (key =? H (ident b) src) eqn:K1.
-        * apply N.eqb_eq in K1. inversion L1; subst. exists src; reflexivity.
+        * apply N.eqb_eq in K1. inversion L1; subst. exists (ident prod), src. auto.
         * exact (R _ _ L1).
   Qed.
 
+  Definition rop_ok (o : rop) : Prop :=
+    match o with
+    | RReq s => ~ resv s
+    | RReqDirect _ s => ~ resv s
+    | RHoldBegin _ s => resv s
+    | _ => True
+    end.
+
   Lemma rstep_inv past s o :
-    RInv past s ->
-    (forall ev, snd (rstep ident H false s o) = Some ev -> forall a, In a past -> ragree a ev = true) ->
-    match snd (rstep ident H false s o) with
-    | Some ev => rright ident ev = true /\ RInv (past ++ [ev]) (fst (rstep ident H false s o))
-    | None => RInv past (fst (rstep ident H false s o))
+    RInv past s -> rop_ok o ->
+    (forall ev, snd (rstep ident H false false s o) = Some ev -> forall a, In a past -> ragree a ev = true) ->
+    match snd (rstep ident H false false s o) with
+    | Some ev => (v_held ev = false -> rright ident ev = true) /\ RInv (past ++ [ev]) (fst (rstep ident H false false s o))
+    | None => RInv past (fst (rstep ident H false false s o))
     end.
   Proof.
-    intros I A. destruct o as [t|t b m|src|t src]; simpl in *.
+    intros I Ok A. destruct o as [t|t b m|src|t src|t src|]; simpl in *.
     - exact I.
     - exact I.
-    - destruct (rserve ident H s None None PROXY (r_dflt s) (r_dflt s) src) as [s' ev] eqn:E. simpl in *.
-      eapply rserve_right; eauto.
-    - destruct (rserve ident H s (r_memo s) (Some t) t t t src) as [s' ev] eqn:E. simpl in *.
-      eapply rserve_right; eauto.
+    - destruct (rserve ident H s None None PROXY (r_dflt s) (r_dflt s) src false None) as [s' ev] eqn:E. simpl in *.
+      destruct (rserve_right _ _ _ _ _ _ _ _ _ _ I E (A ev eq_refl)) as [Rt [I' _]]. auto.
+    - destruct (rserve ident H s (r_memo s) (Some t) t t t src false None) as [s' ev] eqn:E. simpl in *.
+      destruct (rserve_right _ _ _ _ _ _ _ _ _ _ I E (A ev eq_refl)) as [Rt [I' _]]. auto.
+    - destruct I as [C [R Hd]].
+      destruct (r_held s) as [h|] eqn:Hh.
+      + simpl. split; [exact C | split; [exact R | rewrite Hh; exact Hd]].
+      + destruct (tlookup t (r_tcs s)) as [[b0 m0]|] eqn:T.
+        * destruct (memo_hit s t).
+          -- destruct (rserve ident H s (r_memo s) (Some t) t t t src true None) as [s' ev] eqn:E. simpl in *.
+             assert (I : RInv past s) by (split; [exact C | split; [exact R | rewrite Hh; exact I]]).
+             destruct (rserve_right _ _ _ _ _ _ _ _ _ _ I E (A ev eq_refl)) as [_ [I' Vh]].
+             split; [rewrite Vh; discriminate | exact I'].
+          -- simpl. split; [discriminate|]. split; [apply rcomps_more; exact C|]. split; [exact R|].
+             simpl. split; [exact Ok|].
+             eexists; exists b0. split; [apply in_or_app; right; left; reflexivity|]. simpl. auto.
+        * destruct (rserve ident H s (r_memo s) (Some t) t t t src true None) as [s' ev] eqn:E. simpl in *.
+          assert (I : RInv past s) by (split; [exact C | split; [exact R | rewrite Hh; exact I]]).
+          destruct (rserve_right _ _ _ _ _ _ _ _ _ _ I E (A ev eq_refl)) as [_ [I' Vh]].
+          split; [rewrite Vh; discriminate | exact I'].
+    - destruct I as [C [R Hd]].
+      destruct (r_held s) as [[[[t src] id0] m0]|] eqn:Hh; [|simpl; split; [exact C | split; [exact R | rewrite Hh; exact Hd]]].
+      simpl in Hd. destruct Hd as [Rs [ev0 [b0 [I0 [S0 [C0 D0]]]]]].
+      set (k := (t, t)).
+      (* the new compilers map *)
+      assert (Cn : forall ev' (cur : option (N * N)),
+        rcomps_ok (past ++ [ev'])
+          (match cur with
+           | Some (_, m1) => if m1 =? m0
+                             then (k, {| re_exe := t; re_id := id0; re_mtime := m0 |}) :: eremove k (r_comps s)
+                             else eremove k (r_comps s)
+           | None => eremove k (r_comps s)
+           end)).
+      { intros ev' cur.
+        assert (Rm : rcomps_ok (past ++ [ev']) (eremove k (r_comps s))).
+        { intros k1 e1 L1. rewrite elookup_eremove in L1. destruct (rkey_eqb k1 k); [discriminate|].
+          exact (rcomps_more _ _ _ C _ _ L1). }
+        destruct cur as [[b1 m1]|]; [|exact Rm]. destruct (m1 =? m0); [|exact Rm].
+        intros k1 e1 L1. simpl in L1. destruct (rkey_eqb k1 k) eqn:K1.
+        - apply rkey_eqb_eq in K1; subst k1. inversion L1; subst e1; simpl.
+          exists ev0, b0. split; [apply in_or_app; left; exact I0|]. auto.
+        - rewrite elookup_eremove, K1 in L1. exact (rcomps_more _ _ _ C _ _ L1). }
+      destruct (tlookup t (r_tcs s)) as [[b1 m1]|] eqn:T.
+      + destruct (rrlookup (H id0 src) (r_results s)) as [prod|] eqn:L; simpl.
+        * split; [discriminate|]. split; [apply (Cn _ (Some (b1, m1)))|]. split; [exact R | exact I].
+        * split; [discriminate|]. split; [apply (Cn _ (Some (b1, m1)))|]. split; [|exact I].
+          intros key prod L1. simpl in L1. destruct (key =? H id0 src) eqn:K1.
+          -- apply N.eqb_eq in K1. exists id0, src. split; [exact K1 | right; exact Rs].
+          -- exact (R _ _ L1).
+      + simpl. split; [discriminate|]. split; [apply (Cn _ None)|]. split; [exact R | exact I].
   Qed.
 
   Lemma rrun_inv ops : forall s past,
-    RInv past s ->
-    (forall a b, In a (past ++ rexec ident H false s ops) -> In b (past ++ rexec ident H false s ops) ->
+    RInv past s -> Forall rop_ok ops ->
+    (forall a b, In a (past ++ rexec ident H false false s ops) -> In b (past ++ rexec ident H false false s ops) ->
                  ragree a b = true) ->
-    Forall (fun e => rright ident e = true) (rexec ident H false s ops).
+    Forall (fun e => v_held e = false -> rright ident e = true) (rexec ident H false false s ops).
   Proof.
-    induction ops as [|o r IH]; intros s past I A; simpl; [constructor|]. simpl in A.
-    pose proof (rstep_inv past s o I) as St.
-    destruct (snd (rstep ident H false s o)) as [ev|] eqn:Sn.
+    induction ops as [|o r IH]; intros s past I Ok A; simpl; [constructor|]. simpl in A.
+    inversion Ok as [|o' r' Oo Or]; subst.
+    pose proof (rstep_inv past s o I Oo) as St.
+    destruct (snd (rstep ident H false false s o)) as [ev|] eqn:Sn.
     - destruct St as [G I'].
       { intros ev' E a Ia. inversion E; subst ev'. apply A.
         - apply in_or_app; left; exact Ia.
         - apply in_or_app; right; left; reflexivity. }
-      constructor; [exact G|]. apply (IH _ (past ++ [ev]) I').
+      constructor; [exact G|]. apply (IH _ (past ++ [ev]) I' Or).
       intros a b Ia Ib. rewrite <- app_assoc in Ia, Ib. simpl in Ia, Ib. apply A; assumption.
-    - apply (IH _ past); [|exact A]. apply St. intros ev' E; discriminate.
-  Qed.
-
-  Lemma proxy_follows_selection ops :
-    rwf (rexec ident H false rstart ops) = true ->
-    forall e, In e (rexec ident H false rstart ops) -> rright ident e = true.
-  Proof.
-    intros W. assert (I : RInv [] rstart).
-    { split; [intros k e L; discriminate | intros key prod L; discriminate]. }
-    pose proof (rrun_inv ops rstart [] I) as G. simpl in G.
-    assert (A : forall a b, In a (rexec ident H false rstart ops) -> In b (rexec ident H false rstart ops) ->
-                            ragree a b = true).
-    { intros a b Ia Ib. unfold rwf in W. rewrite forallb_forall in W. specialize (W a Ia).
-      rewrite forallb_forall in W. exact (W b Ib). }
-    specialize (G A). rewrite Forall_forall in G. exact G.
+    - apply (IH _ past); [|exact Or|exact A]. apply St. intros ev' E; discriminate.
   Qed.
 End Fresh.
+
+Lemma proxy_follows_selection (ident : N -> N) (H : N -> N -> N) :
+  (forall a b, ident a = ident b -> a = b) ->
+  (forall i1 s1 i2 s2, H i1 s1 = H i2 s2 -> i1 = i2 /\ s1 = s2) ->
+  forall ops,
+  held_srcs_reserved ops = true ->
+  rwf (rexec ident H false false rstart ops) = true ->
+  forall e, In e (rexec ident H false false rstart ops) -> v_held e = false -> rright ident e = true.
+Proof.
+  intros I1 I2 ops Rsv W.
+  set (resv := fun s => In s (held_srcs ops)).
+  assert (I : RInv ident H resv [] rstart).
+  { split; [intros k e L; discriminate | split; [intros key prod L; discriminate | exact Logic.I]]. }
+  assert (Ok : Forall (rop_ok resv) ops).
+  { apply Forall_forall. intros o Io. destruct o as [t|t b m|src|t src|t src|]; simpl; auto.
+    - intros Rs. unfold held_srcs_reserved in Rsv. rewrite forallb_forall in Rsv.
+      assert (Ip : In src (plain_srcs ops)).
+      { unfold plain_srcs. apply in_flat_map. exists (RReq src). split; [exact Io | simpl; auto]. }
+      specialize (Rsv src Ip). apply negb_true_iff in Rsv.
+      assert (existsb (N.eqb src) (held_srcs ops) = true).
+      { apply existsb_exists. exists src. split; [exact Rs | apply N.eqb_refl]. }
+      congruence.
+    - intros Rs. unfold held_srcs_reserved in Rsv. rewrite forallb_forall in Rsv.
+      assert (Ip : In src (plain_srcs ops)).
+      { unfold plain_srcs. apply in_flat_map. exists (RReqDirect t src). split; [exact Io | simpl; auto]. }
+      specialize (Rsv src Ip). apply negb_true_iff in Rsv.
+      assert (existsb (N.eqb src) (held_srcs ops) = true).
+      { apply existsb_exists. exists src. split; [exact Rs | apply N.eqb_refl]. }
+      congruence.
+    - unfold resv, held_srcs. apply in_flat_map. exists (RHoldBegin t src). split; [exact Io | simpl; auto]. }
+  pose proof (rrun_inv ident H I1 I2 resv ops rstart [] I Ok) as G. simpl in G.
+  assert (A : forall a b, In a (rexec ident H false false rstart ops) -> In b (rexec ident H false false rstart ops) ->
+                          ragree a b = true).
+  { intros a b Ia Ib. unfold rwf in W. rewrite forallb_forall in W. specialize (W a Ia).
+    rewrite forallb_forall in W. exact (W b Ib). }
+  specialize (G A). rewrite Forall_forall in G. exact G.
+Qed.
 
 (* ---------- the identity of a rustc sees through links ---------- *)
 
@@ -188,10 +284,28 @@ Definition ops_switch : list rop :=
   [RInstall 1 1 5; RInstall 2 2 9; RDefault 1; RReq 0; RReq 0; RDefault 2; RReq 0; RReq 1; RDefault 1; RReq 1].
 
 Lemma proxy_memo_refuted :
-  rwf (rexec ident_w H_w2 true rstart ops_switch) = true /\
-  existsb (fun e => negb (rright ident_w e)) (rexec ident_w H_w2 true rstart ops_switch) = true /\
-  rwf (rexec ident_w H_w2 false rstart ops_switch) = true /\
-  map v_out (rexec ident_w H_w2 false rstart ops_switch) = [RMiss 1; RHit 1; RMiss 2; RMiss 2; RMiss 1].
+  rwf (rexec ident_w H_w2 true false rstart ops_switch) = true /\
+  existsb (fun e => negb (rright ident_w e)) (rexec ident_w H_w2 true false rstart ops_switch) = true /\
+  rwf (rexec ident_w H_w2 false false rstart ops_switch) = true /\
+  map v_out (rexec ident_w H_w2 false false rstart ops_switch) = [RMiss 1; RHit 1; RMiss 2; RMiss 2; RMiss 1].
+Proof. vm_compute. auto. Qed.
+
+(* a long detection of build 1 at toolchain 1 (its source 3 is reserved); build 2 is installed while it runs; a
+   request arriving inside the window must be keyed on build 2 — a request that JOINS the detection in flight is
+   keyed on build 1 while build 2 compiles, and what it stores is handed out when build 1 is back *)
+Definition ops_join : list rop :=
+  [RInstall 1 1 5; RReqDirect 1 0; RInstall 1 1 7; RHoldBegin 1 3; RInstall 1 2 9; RReqDirect 1 0; RReqDirect 1 1;
+   RHoldEnd; RReqDirect 1 1; RInstall 1 1 7; RReqDirect 1 1; RReqDirect 1 0].
+
+Definition plain_right (evs : list revent) : bool :=
+  forallb (fun e => v_held e || rright ident_w e) evs.
+
+Lemma join_refuted :
+  held_srcs_reserved ops_join = true /\
+  rwf (rexec ident_w H_w2 false true rstart ops_join) = true /\
+  plain_right (rexec ident_w H_w2 false true rstart ops_join) = false /\
+  rwf (rexec ident_w H_w2 false false rstart ops_join) = true /\
+  plain_right (rexec ident_w H_w2 false false rstart ops_join) = true.
 Proof. vm_compute. auto. Qed.
 
 (* two sysroots whose lib/*.so are links into a store with different contents *)
